@@ -105,20 +105,48 @@ def coq_opt(v):
 def coq_trig(tr):
     f = tr.get("filter")
     return ("{| t_filter := %s; t_depth := %s; t_time := %s; t_size := %s; t_trace_on := %s; t_trace_off := %s; "
-            "t_trace := %s; t_caller := %s |}") % (
+            "t_trace := %s; t_caller := %s; t_loc := %s; t_finish := %s |}") % (
         "None" if f is None else ("Some true" if f else "Some false"),
         coq_opt(tr.get("depth")), coq_opt(tr.get("time")), coq_opt(tr.get("size")),
         C.coq_bool(tr.get("trace_on")), C.coq_bool(tr.get("trace_off")), C.coq_bool(tr.get("trace")),
-        C.coq_bool(tr.get("caller")))
+        C.coq_bool(tr.get("caller")),
+        "None" if tr.get("loc") is None else ("Some true" if tr["loc"] else "Some false"),
+        C.coq_bool(tr.get("finish")))
+
+
+def coq_act(k, v):
+    return {"filter": lambda: "OFilter %s" % C.coq_bool(v), "depth": lambda: "ODepth %d" % v, "time": lambda: "OTime %d" % v,
+            "size": lambda: "OSize %d" % v, "trace_on": lambda: "OTraceOn", "trace_off": lambda: "OTraceOff",
+            "trace": lambda: "OTrace", "caller": lambda: "OCaller", "loc": lambda: "OLoc %s" % C.coq_bool(v),
+            "finish": lambda: "OFinish"}[k]()
+
+
+def coq_opts(opts):
+    """option list (see props/c05.py optcases): [{"ks": [function numbers], "acts": [(name, value), ...]}, ...] in the order
+    libmcount sets the options up"""
+    return "[%s]" % "; ".join("{| o_match := [%s]; o_acts := [%s] |}" % (
+        "; ".join(str(256 * k) for k in o["ks"]), "; ".join(coq_act(k, v) for k, v in o["acts"])) for o in opts)
 
 
 def coq_cfg(cfg, sizes):
+    if cfg.get("opts") is not None:
+        # the trigger table and the three counts are computed by the model from the option list (Mcount/Table.v)
+        return "(cfg_of_opts %s %d %d %d [%s] %s)" % (
+            coq_opts(cfg["opts"]),
+            cfg.get("depth") if cfg.get("depth") is not None else 1024,
+            cfg.get("threshold") or 0,
+            cfg.get("max_stack") if cfg.get("max_stack") is not None else 1024,
+            "; ".join("(%d, %d)" % (256 * i, s) for i, s in enumerate(sizes)),
+            "CYG" if cfg.get("shape") == "cyg" else "PG")
     trig = cfg.get("trig", {})
     fm = any(t.get("filter") is True for t in trig.values())
     cl = any(t.get("caller") for t in trig.values())
-    return "(mkcfg [%s] %s %s %d %d %d [%s] %s)" % (
+    # location filter (-L): "loc" per function (True: at a location to show, False: at a hidden one); loc_count > 0
+    # iff some location is named to be shown
+    lm = any(t.get("loc") is True for t in trig.values()) or bool(cfg.get("loc_in"))
+    return "(mkcfgL [%s] %s %s %s %d %d %d [%s] %s)" % (
         "; ".join("(%d, %s)" % (256 * k, coq_trig(t)) for k, t in sorted(trig.items())),
-        C.coq_bool(fm), C.coq_bool(cl),
+        C.coq_bool(fm), C.coq_bool(cl), C.coq_bool(lm),
         cfg.get("depth") if cfg.get("depth") is not None else 1024,
         cfg.get("threshold") or 0,
         cfg.get("max_stack") if cfg.get("max_stack") is not None else 1024,
